@@ -315,6 +315,18 @@ def r2_4(ctx, R, counter_field):
                                 if lens and lens <= allowed_:
                                     ok = True
                                     det = "groups.len() in %s %s removing the exhausted group" % (sorted(lens), "after" if removed_before else "before")
+            if not ok:
+                # the emptiness test may sit in a helper whose boolean result is tested again (inlined): decide per path
+                from lib_flow import all_arrivals_cross
+
+                def empt(lab):
+                    return lab[0] == "bool" and lab[2] is True and lab[1][0] == "call" and lab[1][1] and \
+                        re.search(r"alloc::vec::Vec::<.*>::is_empty$", lab[1][1]) is not None
+                try:
+                    ok, na, bad = all_arrivals_cross(b, fl, rb, empt)
+                    det = "every one of %d feasible arrivals crosses groups.is_empty()" % na if ok else "arrival without emptiness test: %s" % (bad,)
+                except RuntimeError as e_:
+                    det = str(e_)
             ctx.ob("R2.4", b, "ready-none-behind-groups.is_empty#%d" % k, ok, b.loc(rb), det)
     # all other poll functions of collection types: None only forwarded
     for b in ctx.facts.fn_bodies():
